@@ -327,7 +327,8 @@ func (c *chain) proofOp(tr *fx.Trace, height int64, rid uint64, count bool) {
 	}
 	iavl, ms := c.rawProofs(key, height-1)
 	m["iavl"], m["msep"] = iavl, ms
-	var out fx.M
+	var out, evm fx.M
+	var eerr error
 	errS := fx.Try(func() error {
 		if count {
 			resp, err := c.server(height).RequestCountProof(context.Background(), &proof.RequestCountProofRequest{})
@@ -340,6 +341,7 @@ func (c *chain) proofOp(tr *fx.Trace, height int64, rid uint64, count bool) {
 			out["version"] = fx.U(p.CountProof.Version)
 			out["paths"] = pathsOut(p.CountProof.MerklePaths)
 			out["blockHeight"] = fx.U(p.BlockHeight)
+			evm, eerr = evmOut(resp.Result.EvmProofBytes, true)
 			return nil
 		}
 		resp, err := c.server(height).Proof(context.Background(), &proof.ProofRequest{RequestId: rid, Height: height})
@@ -353,12 +355,22 @@ func (c *chain) proofOp(tr *fx.Trace, height int64, rid uint64, count bool) {
 		out["version"] = fx.U(p.OracleDataProof.Version)
 		out["paths"] = pathsOut(p.OracleDataProof.MerklePaths)
 		out["blockHeight"] = fx.U(p.BlockHeight)
+		evm, eerr = evmOut(resp.Result.EvmProofBytes, false)
 		return nil
 	})
 	if out == nil {
 		out = fx.M{}
 	}
 	out["err"] = errS
+	if errS == "" {
+		// what the bridge contract reads from the EVM proof bytes, in the shape of `out`
+		if eerr != nil {
+			out["evm"] = fx.M{"err": eerr.Error()}
+		} else {
+			evm["err"] = ""
+			out["evm"] = evm
+		}
+	}
 	m["out"] = out
 	tr.Op(m)
 }
